@@ -159,7 +159,7 @@ def r4_take(ctx):
         paths = Interp(repo).explore(fi, args={"indices": idx, "dim": 1, "kwargs": {}})
         for p in paths:
             if p.exit[0] != "return":
-                ctx.undecided("C15.R4", loc(fi), f"take raises on the model: {vkey(p.exit[1])[:60]}")
+                ctx.violation("C15.R4", fi.qual, loc(fi), "take accepts an integer axis", f"take(array, {idx!r}, dim=1) raises {vkey(p.exit[1])[:60]}")
                 continue
             tk = [e for e in p.effects if e.kind == "call" and e.data.get("method") == "take"]
             sq = [e for e in p.effects if e.kind == "call" and e.data.get("method") == "squeeze"]
